@@ -359,8 +359,8 @@ func vC02Nsec3Case(t *testing.T, tr *vC02Trace, g *vC02Gen, zin *vC02Zone) {
 				p.q = vC02Child(g.poolLabel(), p.q)
 			}
 		}
-		if r.Intn(6) == 0 {
-			p.q = vC02UpperSome(r, p.q)
+		if r.Intn(3) == 0 {
+			p.q = vC02FlipSome(r, p.q)
 		}
 		p.qtype = g.qtypeFor(z, p.q)
 		p.qclass = g.qclass()
